@@ -204,3 +204,8 @@ def run(ctx: Ctx, rep: Report, tier: str):
     section(rep, c.z4)
     section(rep, c.z5)
     rep.assume("the value-level laws of C13 (idempotence, split/join round trip, replace/match laws for all strings) are not decided by this check")
+    from rules.decisions import decision_table, table_sites
+    rep.rule("C13.DT", "decision table (rules/decisions.json) of the path algebra of the provider base class: for every function and every action shape (an impure call with the parameters it passes, a store to an "
+             "attribute or item, a delete, a returned constant, a yield, a raise) the set of states - over the function's guard atoms - in which the action is taken "
+             "equals the recorded one; compared as canonical decision diagrams, so any equivalent respelling of the guards is the same table", table_sites("C13"))
+    section(rep, lambda: decision_table(ctx, rep, "C13.DT", "C13"))
